@@ -44,6 +44,16 @@ class Monitor:
         self.nontrivial = False
         self.last_desc = None
         self._alpha = alphabet(self.version, self.thorough)
+        if cfg.get("parked"):
+            # the application has commands parked for node 1 (asleep): received lines must still be yielded literally
+            from aiomysensors.model.message import Message
+
+            wt = R.wake_type(self.version)
+            for f in ([1, 255, 0, 0, 17, "2.0"], [1, 3, 0, 0, 6, "d"], [1, 255, 3, 0, wt, "5"]):
+                self.apply(f)
+            self.s.send(Message(1, 3, 1, 0, 2, "parked"))
+            self.s.send(Message(1, 255, 3, 0, 13, "x"))
+            self._alpha = self._alpha + [[1, 255, 3, 0, wt, "6"], [2, 255, 3, 0, wt, "6"]]
 
     def events(self) -> list:
         return self._alpha
@@ -150,6 +160,10 @@ def run(ctx: core.Ctx) -> core.Report:
         tot["per_cfg"] += res["per_cfg"]
         tot["samples"] += res["samples"]
         tot["violations"] += res["violations"]
+    pres = bfs.search(ctx, MOD, [{"version": v, "parked": True} for v in (["2.1", "2.2"] if ctx.quick else ["2.0", "2.1", "2.2"])], max_depth=2 if ctx.quick else 3)
+    for k in ("states", "transitions", "nontrivial_transitions"):
+        tot[k] += pres[k]
+    tot["violations"] += pres["violations"]
     tjobs = []
     for v in R.VERSIONS:
         cts = list(range(0, R.S_MAX[v] + 1)) + [R.S_MAX[v] + 1, 99, 255, -1]
